@@ -366,3 +366,38 @@ contract(
     safety_props=["C18"],
     assumes=["PS2", "PS5", "E1"],
 )
+
+# ---------------------------------------------------------------------------------------------- DefaultDictAdapter.argument
+
+
+def p_plain_dict(I, args, kwargs, node):
+    return SV(z3.Function("plain_dict_of", sort_of(VAL), sort_of(VAL))(val_term(I, args[0])), VAL)
+
+
+def s_plain_dict(I, v):
+    return SV(z3.Function("plain_dict_of", sort_of(VAL), sort_of(VAL))(val_term(I, v)), VAL)
+
+
+def s_default_factory(I, v):
+    return SV(z3.Function("Val_default_factory", sort_of(VAL), sort_of(VAL))(val_term(I, v)), VAL)
+
+
+SPEC_NS.update({"plain_dict": s_plain_dict, "default_factory_of": s_default_factory})
+
+contract(
+    GC + ".DefaultDictAdapter.argument",
+    params={"self": "Opaque", "value": "Val", "pos_or_name": "Int"},
+    callees={"dict": p_plain_dict},
+    attrs={"Val.default_factory": "Val"},
+    requires={"one-of-the-two-arguments": "pos_or_name == 0 or pos_or_name == 1"},
+    returns=None,
+    result_name="ret",
+    ensures={
+        # C11: the entries of `defaultdict(factory, {...})` are matched by key only if the old second argument is a plain dict like the
+        # new one (arguments() hands out dict(value)); a defaultdict there makes the adapters differ and the whole display is replaced
+        "second-argument-is-a-plain-dict-copy [C11,C02]": "implies(pos_or_name == 1, same(ret, plain_dict(value)))",
+        "first-argument-is-the-factory [C11,C02]": "implies(pos_or_name == 0, same(ret, default_factory_of(value)))",
+    },
+    frame=[],
+    safety_props=["C18"],
+)
